@@ -1081,9 +1081,33 @@ func init() {
 		"(*bytes.Buffer).String", 
 		"(*strings.Builder).WriteByte", "(*strings.Builder).WriteString",
 		"(*strings.Builder).String", "(*strings.Builder).Len", "(*strings.Builder).WriteRune", "(*strings.Builder).Write",
-		"bufio.NewScanner", "(*bufio.Scanner).Scan", "(*bufio.Scanner).Text", "(*bufio.Scanner).Err", "(*bufio.Scanner).Bytes",
+		"bufio.NewScanner", "(*bufio.Scanner).Text", "(*bufio.Scanner).Bytes",
 		"(*bufio.Scanner).Buffer", "strconv.FormatInt", "strconv.FormatFloat", "strconv.Quote", "unicode.IsSpace", "unicode.IsDigit"} {
 		intrinsics[k] = pureFresh
+	}
+	// bufio.Scanner: Scan reads from the underlying reader (a read fault may
+	// happen, ghost flag rfault); Err reports the first read error other than
+	// io.EOF that Scan met.  The scanner's lifetime is approximated by the
+	// function's: a fault since function entry counts as the scanner's.
+	intrinsics["(*bufio.Scanner).Scan"] = func(x *Exec, st *State, fn *ssa.Function, args []Val, pos token.Pos, resT *types.Tuple) Val {
+		c := x.c
+		c.havocRegion(st, "$alloc")
+		c.havocTpos(st, c.region(st, "$tpos"))
+		c.havocRfault(st)
+		c.note("trusted: (*bufio.Scanner).Scan reads from the underlying reader and has no other effect on the caller's state")
+		return x.results(st, resT, "scan")
+	}
+	intrinsics["(*bufio.Scanner).Err"] = func(x *Exec, st *State, fn *ssa.Function, args []Val, pos token.Pos, resT *types.Tuple) Val {
+		c := x.c
+		c.havocRegion(st, "$alloc")
+		res := x.results(st, resT, "serr")
+		entry := "false"
+		if r := x.root(); r.entry != nil {
+			entry = c.region(r.entry, "$rfault")
+		}
+		c.assume(implies(and(c.region(st, "$rfault"), not(entry)), not(eq(res.S, "I_nil"))))
+		c.note("trusted: (*bufio.Scanner).Err returns the first read error other than io.EOF met by Scan (a read fault since function entry is taken to be the scanner's)")
+		return res
 	}
 	// bytes.Buffer: the ghost array $buflen holds the number of unread bytes of every buffer
 	bufLenOf := func(x *Exec, st *State, ref string) string { return sx("select", x.c.region(st, "$buflen"), ref) }
